@@ -209,6 +209,7 @@ structure State where
   nextToken : Nat := 0
   nextDep : Nat := 0
   alive : Bool := true                      -- false once the `IncrState` is dropped
+  top : Array Nat := #[]                    -- naming table: k-th node created by a top-level action
   log : List Event := []                    -- reversed
 deriving Repr, Inhabited
 
@@ -245,7 +246,8 @@ deriving Repr, Inhabited
 
 /-- operand of a template instruction -/
 inductive Opnd where
-  | outer (n : Nat)      -- `$n`: a node that exists outside the closure (captured handle)
+  | outer (n : Nat)      -- `n<k>`: the k-th node created by a top-level action (captured handle)
+  | abs (n : Nat)        -- `#<i>`: a node by creation index (directed tests: nodes leaked from closures)
   | loc (j : Nat)        -- `%j`: the j-th node created by this run of the closure
 deriving Repr, Inhabited, DecidableEq
 
